@@ -15,14 +15,18 @@ TraceInit == Init /\ l = 1 /\ TLCSet(1, 1)
 Is(e) == l <= Len(Trace) /\ Ev.ev = e /\ l' = l + 1
 TReset == /\ Is("reset")
           /\ next' = 1 /\ cur' = 0 /\ i' = 0 /\ conn' = "up" /\ sinkUp' = TRUE /\ faults' = 0
-          /\ delivered' = <<>> /\ errCount' = 0 /\ stable' = 0
+          /\ delivered' = <<>> /\ errCount' = 0 /\ stable' = 0 /\ stalled' = FALSE /\ pending' = <<>>
 THand == Is("hand") /\ next = Ev.m /\ Take
 (* the driver applies a fault after the hand-over of the previous message; the producer may still be working on it *)
 TDie == Is("die") /\ SinkDie
 TRestart == Is("restart") /\ SinkRestart
+(* the sink stops reading (under the lock that guards what it has received), reads on, or resets the connection *)
+TStall == Is("stall") /\ SinkStall
+TResume == Is("resume") /\ SinkResume
+TRst == Is("rst") /\ SinkRst
 TEnd == /\ Is("end") /\ cur = 0 /\ delivered = Ev.delivered /\ UNCHANGED vars
 Silent == (WriteOk \/ WriteLost \/ WriteReset \/ WriteEPIPE) /\ UNCHANGED l
-TraceNext == TReset \/ THand \/ TDie \/ TRestart \/ TEnd \/ Silent
+TraceNext == TReset \/ THand \/ TDie \/ TRestart \/ TStall \/ TResume \/ TRst \/ TEnd \/ Silent
 TraceSpec == TraceInit /\ [][TraceNext]_tvars
 Mark == TLCSet(1, IF TLCGet(1) < l THEN l ELSE TLCGet(1))
 Accepted == \/ TLCGet(1) = Len(Trace) + 1
